@@ -1,18 +1,28 @@
 //! C17 — count / tf-idf vectorisers against a naive recount of the tokenised corpus.
 //!
-//! The tokeniser (NFKD, lower-casing, regex / function) stays on the Rust side: every document is
-//! tokenised with linfa's own `transform_string` (hook) and the configured regex / function, and the
-//! token lists travel to the model (`x` + hex of the UTF-8 bytes per token).  The real `fit` /
-//! `transform` calls tokenise on their own, so a change in their tokenisation path shows up as a
-//! disagreement.  The vocabulary comes out of a hash map: both sides are canonicalised by sorting
-//! the words and permuting the columns accordingly.
+//! Tokenisation is judged from first principles: every document is tokenised by a *reference* written
+//! here (`ref_transform`: NFKD / lower-casing of the closed alphabet by hand-written tables;
+//! `ref_tokens`: the documented default "words of two or more word characters", the no-blank regex by a
+//! direct leftmost-greedy simulation, the split function).  The reference token lists travel to the
+//! model (`x` + hex of the UTF-8 bytes per token) and feed the oracle; linfa's own `transform_string`
+//! (hook) + compiled regex are compared with them (`settings_honoured`), and the real `fit` /
+//! `transform` calls tokenise on their own, so a change anywhere in linfa's tokenisation path — the
+//! setters, `transform_string`, the default regex — shows up as oracle failure and disagreement.
+//! The vocabulary comes out of a hash map: both sides are canonicalised by sorting the words and
+//! permuting the columns accordingly.  Every case names the calling form of `fit` and of `transform`
+//! (owned array, view, strided / reversed view, `&str` and `Display` elements, checked parameters,
+//! serde round trip of the fitted vectoriser, `fit_files` / `transform_files`).
 use crate::util::*;
 use linfa::ParamGuard;
 use linfa_preprocessing::tf_idf_vectorization::{FittedTfIdfVectorizer, TfIdfMethod, TfIdfVectorizer};
+use linfa_preprocessing::verif_hooks_c04 as hk04;
 use linfa_preprocessing::verif_hooks_c17 as hk;
 use linfa_preprocessing::{CountVectorizer, CountVectorizerParams, CountVectorizerValidParams, Tokenizer};
-use ndarray::{Array1, Array2};
+use ndarray::{s, Array1, Array2};
+use sprs::CsMat;
 use std::collections::{BTreeMap, BTreeSet};
+use std::path::PathBuf;
+use std::sync::OnceLock;
 
 const POOL: &[&str] = &[
     "one", "Two", "two", "TWO", "three", "four", "caf\u{e9}", "cafe\u{301}", "CAF\u{c9}", "\u{fb01}sh", "fish", "x", "a-b", "b;c", "it's", "\u{212b}ng", "\u{e5}ng", "na\u{ef}ve", "\u{130}st", "42", "two2",
@@ -96,7 +106,7 @@ impl Cfg {
         p.check().expect("tokeniser settings are valid")
     }
     fn covered(&self) -> bool {
-        self.nmin >= 1 && self.nmin <= self.nmax && self.nmax <= 3 && self.lo >= 0.0 && self.lo <= self.hi && self.hi <= 1.0
+        self.nmin >= 1 && self.nmin <= self.nmax && self.lo >= 0.0 && self.lo <= self.hi && self.hi <= 1.0
     }
     fn settings(&self) -> String {
         format!(
@@ -131,12 +141,277 @@ fn xw(w: &str) -> String {
     format!("x{}", hexstr(w))
 }
 
-fn tokens(v: &CountVectorizerValidParams, doc: &str) -> Vec<String> {
+/// linfa's own tokenisation of `doc` (its `transform_string` through the hook + its compiled regex
+/// or the configured function)
+fn linfa_tokens(v: &CountVectorizerValidParams, doc: &str) -> Vec<String> {
     let s = hk::transformed(v, doc);
     if let Some(f) = v.tokenizer_function() {
         f(&s).into_iter().map(|t| t.to_string()).collect()
     } else {
         v.split_regex().find_iter(&s).map(|m| m.as_str().to_string()).collect()
+    }
+}
+
+// ---- reference tokenisation, from first principles over the closed alphabet of the generators
+
+/// NFKD of one character of the alphabet (Unicode decomposition mappings, written out by hand)
+fn ref_nfkd_char(c: char, out: &mut String) {
+    match c {
+        '\u{e9}' => out.push_str("e\u{301}"),
+        '\u{c9}' => out.push_str("E\u{301}"),
+        '\u{fb01}' => out.push_str("fi"),
+        '\u{fb03}' => out.push_str("ffi"),
+        '\u{212b}' | '\u{c5}' => out.push_str("A\u{30a}"),
+        '\u{e5}' => out.push_str("a\u{30a}"),
+        '\u{ef}' => out.push_str("i\u{308}"),
+        '\u{130}' => out.push_str("I\u{307}"),
+        c if c.is_ascii() || ('\u{300}'..='\u{36f}').contains(&c) => out.push(c),
+        c => panic!("C17 reference NFKD: character {:?} is outside the alphabet", c),
+    }
+}
+/// lower-casing of one character of the alphabet (Unicode `Lowercase_Mapping`)
+fn ref_lower_char(c: char, out: &mut String) {
+    match c {
+        '\u{c9}' => out.push('\u{e9}'),
+        '\u{212b}' | '\u{c5}' => out.push('\u{e5}'),
+        '\u{130}' => out.push_str("i\u{307}"),
+        '\u{e9}' | '\u{fb01}' | '\u{fb03}' | '\u{e5}' | '\u{ef}' => out.push(c),
+        c if c.is_ascii() => out.push(c.to_ascii_lowercase()),
+        c if ('\u{300}'..='\u{36f}').contains(&c) => out.push(c),
+        c => panic!("C17 reference lower-casing: character {:?} is outside the alphabet", c),
+    }
+}
+fn ref_nfkd(s: &str) -> String {
+    let mut o = String::new();
+    s.chars().for_each(|c| ref_nfkd_char(c, &mut o));
+    o
+}
+fn ref_lower(s: &str) -> String {
+    let mut o = String::new();
+    s.chars().for_each(|c| ref_lower_char(c, &mut o));
+    o
+}
+/// the documented meaning of the two switches: "all characters normalised according to NFKD" iff
+/// `normalize`, "converted to lowercase" iff `convert_to_lowercase`, independently of each other
+fn ref_transform(lower: bool, norm: bool, doc: &str) -> String {
+    let s = if norm { ref_nfkd(doc) } else { doc.to_string() };
+    if lower { ref_lower(&s) } else { s }
+}
+/// word character of the alphabet (letters, digits, underscore, combining marks)
+fn is_word(c: char) -> bool {
+    c.is_alphanumeric() || c == '_' || ('\u{300}'..='\u{36f}').contains(&c)
+}
+/// documented default tokeniser `\b\w\w+\b`: "selects words, using whitespaces and punctuation
+/// symbols as separators" — the maximal runs of word characters of length two or more
+fn ref_tok_default(s: &str) -> Vec<String> {
+    let mut out = vec![];
+    let mut cur = String::new();
+    for c in s.chars().chain(std::iter::once(' ')) {
+        if is_word(c) {
+            cur.push(c);
+        } else {
+            if cur.chars().count() >= 2 {
+                out.push(cur.clone());
+            }
+            cur.clear();
+        }
+    }
+    out
+}
+/// the user regex `\b[^ ][^ ]+\b` by direct simulation: leftmost start at a word boundary, the
+/// longest run of two or more non-blank characters that ends at a word boundary, non-overlapping
+fn ref_tok_noblank(s: &str) -> Vec<String> {
+    let ch: Vec<char> = s.chars().collect();
+    let n = ch.len();
+    let boundary = |i: usize| -> bool {
+        let a = i > 0 && is_word(ch[i - 1]);
+        let b = i < n && is_word(ch[i]);
+        a != b
+    };
+    let mut out = vec![];
+    let mut pos = 0;
+    'search: while pos < n {
+        for st in pos..n {
+            if ch[st] == ' ' || !boundary(st) {
+                continue;
+            }
+            let mut e = st;
+            while e < n && ch[e] != ' ' {
+                e += 1;
+            }
+            while e >= st + 2 {
+                if boundary(e) {
+                    out.push(ch[st..e].iter().collect());
+                    pos = e;
+                    continue 'search;
+                }
+                e -= 1;
+            }
+        }
+        break;
+    }
+    out
+}
+fn ref_tokens(cfg: &Cfg, doc: &str) -> Vec<String> {
+    let s = ref_transform(cfg.lower, cfg.norm, doc);
+    match cfg.tok {
+        0 => ref_tok_default(&s),
+        1 => ref_tok_noblank(&s),
+        _ => s.split(' ').map(|t| t.to_string()).collect(),
+    }
+}
+fn tok_class(cfg: &Cfg) -> String {
+    format!("lower={}:norm={}:tok={}", cfg.lower, cfg.norm, cfg.tok)
+}
+/// clause "tokenisation settings are honoured": linfa's tokenisation of every document equals the
+/// reference; the getters report the configured switches
+fn oracle_settings(ctx: &mut Ctx, cfg: &Cfg, docs: &[String], toks: &[Vec<String>]) {
+    let tp = cfg.tokenizer_params();
+    let class = tok_class(cfg);
+    ctx.require(tp.normalize() == cfg.norm && tp.convert_to_lowercase() == cfg.lower, "settings_kept", &class, || {
+        format!("configured normalize={} lowercase={}, parameters report normalize={} lowercase={}", cfg.norm, cfg.lower, tp.normalize(), tp.convert_to_lowercase())
+    });
+    for (d, want) in docs.iter().zip(toks) {
+        let got = linfa_tokens(&tp, d);
+        if &got != want {
+            ctx.fail("settings_honoured", &class, format!("document {:?}: linfa tokenises to {:?}, the settings (lowercase={}, normalize={}, tokenizer {}) mean {:?}", d, got, cfg.lower, cfg.norm, cfg.tok, want));
+            return;
+        }
+    }
+}
+
+// ---- calling forms
+
+#[derive(Clone)]
+struct Doc(String);
+impl std::fmt::Display for Doc {
+    fn fmt(&self, f: &mut std::fmt::Formatter<'_>) -> std::fmt::Result {
+        f.write_str(&self.0)
+    }
+}
+
+const FIT_FORMS: &[&str] = &["owned", "view", "strided", "reversed", "strref", "display", "checked", "files"];
+const TFIDF_FIT_FORMS: &[&str] = &["owned", "view", "strided", "reversed", "strref", "display", "files"];
+const TR_FORMS: &[&str] = &["owned", "view", "strided", "reversed", "strref", "display", "serde", "files"];
+
+/// evaluate `$body` with `$x` bound to a reference to the documents as a one-dimensional array in the
+/// named in-memory layout / element type
+macro_rules! on_form {
+    ($form:expr, $docs:expr, $x:ident => $body:expr) => {{
+        let docs: &[String] = $docs;
+        match $form {
+            "view" => {
+                let a = Array1::from(docs.to_vec());
+                let v = a.view();
+                let $x = &v;
+                $body
+            }
+            "strided" => {
+                let mut w = Vec::new();
+                for d in docs {
+                    w.push(d.clone());
+                    w.push(format!("{} zebra junkword {}", d, d));
+                }
+                let a = Array1::from(w);
+                let v = a.slice(s![..;2]);
+                let $x = &v;
+                $body
+            }
+            "reversed" => {
+                let mut w = docs.to_vec();
+                w.reverse();
+                let a = Array1::from(w);
+                let v = a.slice(s![..;-1]);
+                let $x = &v;
+                $body
+            }
+            "strref" => {
+                let w: Vec<&str> = docs.iter().map(|s| s.as_str()).collect();
+                let a = Array1::from(w);
+                let $x = &a;
+                $body
+            }
+            "display" => {
+                let a = Array1::from(docs.iter().map(|s| Doc(s.clone())).collect::<Vec<_>>());
+                let $x = &a;
+                $body
+            }
+            _ => {
+                let a = Array1::from(docs.to_vec());
+                let $x = &a;
+                $body
+            }
+        }
+    }};
+}
+
+static FILE_DIR: OnceLock<PathBuf> = OnceLock::new();
+fn file_dir() -> &'static PathBuf {
+    FILE_DIR.get_or_init(|| {
+        let base = std::env::args().nth(4).map(PathBuf::from).unwrap_or_else(std::env::temp_dir);
+        let d = base.join(format!("c17_files_{}", std::process::id()));
+        std::fs::create_dir_all(&d).expect("create the directory of the document files");
+        d
+    })
+}
+fn write_files(tag: &str, docs: &[String]) -> Vec<PathBuf> {
+    docs.iter()
+        .enumerate()
+        .map(|(k, d)| {
+            let p = file_dir().join(format!("{}{}.txt", tag, k));
+            std::fs::write(&p, d.as_bytes()).expect("write a document file");
+            p
+        })
+        .collect()
+}
+
+type PResult<T> = Result<T, linfa_preprocessing::PreprocessingError>;
+
+fn fit_count(cfg: &Cfg, form: &str, docs: &[String]) -> PResult<CountVectorizer> {
+    match form {
+        "files" => cfg.count_params().fit_files(&write_files("fit", docs), hk04::utf8(), hk04::strict()),
+        "checked" => {
+            let v = cfg.count_params().check()?;
+            let a = Array1::from(docs.to_vec());
+            v.fit(&a)
+        }
+        _ => on_form!(form, docs, x => cfg.count_params().fit(x)),
+    }
+}
+fn fit_tfidf(cfg: &Cfg, method: &str, form: &str, docs: &[String]) -> PResult<FittedTfIdfVectorizer> {
+    match form {
+        "files" => cfg.tfidf_params(method).fit_files(&write_files("fit", docs), hk04::utf8(), hk04::strict()),
+        _ => on_form!(form, docs, x => cfg.tfidf_params(method).fit(x)),
+    }
+}
+fn transform_count(cfg: &Cfg, cv: &CountVectorizer, form: &str, docs: &[String]) -> PResult<CsMat<usize>> {
+    match form {
+        "files" => cv.transform_files(&write_files("tr", docs), hk04::utf8(), hk04::strict()),
+        "serde" => {
+            let js = serde_json::to_string(cv).expect("serialise CountVectorizer");
+            let mut back: CountVectorizer = serde_json::from_str(&js).expect("deserialise CountVectorizer");
+            if cfg.tok == 2 {
+                back.force_tokenizer_function_redefinition(split_blank);
+            }
+            let a = Array1::from(docs.to_vec());
+            back.transform(&a)
+        }
+        _ => on_form!(form, docs, x => cv.transform(x)),
+    }
+}
+fn transform_tfidf(cfg: &Cfg, tv: &FittedTfIdfVectorizer, form: &str, docs: &[String]) -> PResult<CsMat<f64>> {
+    match form {
+        "files" => tv.transform_files(&write_files("tr", docs), hk04::utf8(), hk04::strict()),
+        "serde" => {
+            let js = serde_json::to_string(tv).expect("serialise FittedTfIdfVectorizer");
+            let mut back: FittedTfIdfVectorizer = serde_json::from_str(&js).expect("deserialise FittedTfIdfVectorizer");
+            if cfg.tok == 2 {
+                back.force_tokenizer_redefinition(split_blank);
+            }
+            let a = Array1::from(docs.to_vec());
+            back.transform(&a)
+        }
+        _ => on_form!(form, docs, x => tv.transform(x)),
     }
 }
 
@@ -181,7 +456,10 @@ fn gen_doc(rng: &mut Rng, alpha: &[&str], maxw: usize, oov: bool) -> String {
 
 fn gen_bound(rng: &mut Rng, n: usize) -> f32 {
     const GRID: &[f32] = &[0.0, 0.05, 0.1, 0.2, 0.25, 0.3, 1.0 / 3.0, 0.4, 0.5, 0.6, 2.0 / 3.0, 0.7, 0.75, 0.8, 0.9, 1.0];
-    match rng.below(10) {
+    match rng.below(11) {
+        // dyadic bounds: `bound * n` is exact, so a document frequency exactly on the bound is a
+        // decided case (inclusive window) whenever 16 | k * n
+        10 => rng.below(17) as f32 / 16.0,
         0..=3 => *rng.pick(GRID),
         4..=6 if n > 0 => rng.below(n + 1) as f32 / n as f32,
         7 if n > 0 => (rng.below(2 * n + 1) as f32 + 0.5) / (2 * n) as f32,
@@ -319,25 +597,78 @@ fn oracle_vocab(ctx: &mut Ctx, em_counts: &mut Vec<String>, cfg: &Cfg, fit_toks:
         }
         Some(cap) => {
             if undecided > 0 {
-                em_counts.push("cap_check_skipped_df_float_tie".into());
+                em_counts.push("cap_check_with_df_float_tie".into());
+            }
+            // a listed entry the settings exclude
+            let excluded = verdicts.iter().filter(|(w, _, a)| vset.contains(w) && matches!(a, Adm::Out(_))).map(|(w, _, a)| (*w, if let Adm::Out(r) = a { r.clone() } else { String::new() })).next();
+            if let Some((w, reason)) = excluded {
+                ctx.fail("vocab_admits_only", &reason, format!("under cap {}: entry {:?} is in the vocabulary although the settings exclude it (lo={} hi={} n={} stop={:?})", cap, w, cfg.lo, cfg.hi, n, cfg.stop));
                 return;
             }
-            // most frequent first; equal frequencies: the code's documented-by-behaviour tie-break
-            // is not part of the statement, so only the frequency multiset is demanded, plus
-            // "kept ≥ dropped" by frequency.
-            adm.sort_by(|a, b| b.0.cmp(&a.0).then(b.1.cmp(a.1)));
-            let want = cap.min(adm.len());
-            let bad_out: Vec<&String> = vocab.iter().filter(|w| !adm.iter().any(|(_, a)| a == w)).collect();
-            let below_min = verdicts.iter().filter(|(w, _, a)| vset.contains(w) && matches!(a, Adm::Out(_))).map(|(_, _, a)| if let Adm::Out(r) = a { r.clone() } else { String::new() }).next();
-            if let Some(reason) = below_min {
-                ctx.fail("vocab_admits_only", &reason, format!("under cap {}: entries {:?} are in the vocabulary although the settings exclude them (lo={} hi={} n={} stop={:?})", cap, bad_out, cfg.lo, cfg.hi, n, cfg.stop));
-                return;
-            }
-            ctx.require(vocab.len() == want, "cap_size", &cfg.class(), || format!("cap {}: {} admitted entries, vocabulary has {} (want {})", cap, adm.len(), vocab.len(), want));
+            // size: min(cap, |admitted|); entries whose admission is a float tie may count or not
+            // (the implementation decides a whole frequency level at once)
+            let lo_sz = cap.min(adm.len());
+            let hi_sz = cap.min(adm.len() + undecided);
+            ctx.require(lo_sz <= vocab.len() && vocab.len() <= hi_sz, "cap_size", &cfg.class(), || format!("cap {}: {} admitted entries (+{} undecided), vocabulary has {} (want {}..={})", cap, adm.len(), undecided, vocab.len(), lo_sz, hi_sz));
+            // most frequent: every kept entry is at least as frequent as every dropped admitted one
+            // (equal frequencies: the statement does not fix the choice)
             let kept_min = vocab.iter().filter_map(|w| df.get(w)).min().copied();
             let dropped_max = adm.iter().filter(|(_, w)| !vset.contains(w)).map(|(d, _)| *d).max();
             if let (Some(k), Some(d)) = (kept_min, dropped_max) {
                 ctx.require(k >= d, "cap_is_top", &cfg.class(), || format!("cap {}: a kept entry has document frequency {} but a dropped admitted entry has {}", cap, k, d));
+            }
+        }
+    }
+}
+
+/// is the fitted vocabulary determined by the statement?  No when a relative bound is within f32
+/// noise of (but not equal to) the document frequency of a corpus entry, or when the feature cap
+/// cuts through entries of equal document frequency.  (Same computation as the driver's.)
+fn decided(cfg: &Cfg, fit_toks: &[Vec<String>], vocab: &[String]) -> bool {
+    let n = fit_toks.len();
+    let mut df: BTreeMap<String, usize> = BTreeMap::new();
+    for d in fit_toks {
+        let set: BTreeSet<String> = naive_grams(d, cfg.nmin, cfg.nmax).into_iter().collect();
+        for g in set {
+            *df.entry(g).or_insert(0) += 1;
+        }
+    }
+    if df.values().any(|d| cmp_bound(cfg.lo, n, *d) == Cmp::Tie || cmp_bound(cfg.hi, n, *d) == Cmp::Tie) {
+        return false;
+    }
+    if cfg.cap.is_some() {
+        let vset: BTreeSet<&String> = vocab.iter().collect();
+        let kept: BTreeSet<usize> = vocab.iter().filter_map(|w| df.get(w).copied()).collect();
+        let stop = |w: &String| cfg.stop.as_ref().map_or(false, |s| s.iter().any(|x| x == w));
+        if df.iter().any(|(w, d)| !vset.contains(w) && !stop(w) && kept.contains(d)) {
+            return false;
+        }
+    }
+    true
+}
+fn show_margin(decided: bool) -> &'static str {
+    if decided { "margin=~3ff0000000000000" } else { "margin=~0000000000000000" }
+}
+
+/// the documented sparse structure of the count matrix: "if a vocabulary entry was not encountered
+/// in a document, then the relative cell in the sparse matrix will be set to None" — stored cells are
+/// exactly the non-zero counts, column indices increasing within a row
+fn oracle_sparse(ctx: &mut Ctx, class: &str, cs: &CsMat<usize>, naive: &[Vec<usize>]) {
+    if !cs.is_csr() || cs.rows() != naive.len() {
+        ctx.fail("sparse_structure", class, format!("matrix is not a CSR matrix of {} rows (csr={}, rows={})", naive.len(), cs.is_csr(), cs.rows()));
+        return;
+    }
+    for (d, row) in cs.outer_iterator().enumerate() {
+        let idx: Vec<usize> = row.indices().to_vec();
+        let want: Vec<usize> = naive[d].iter().enumerate().filter(|(_, c)| **c > 0).map(|(j, _)| j).collect();
+        if idx != want {
+            ctx.fail("sparse_structure", class, format!("document {}: stored columns {:?}, the columns with a non-zero count are {:?}", d, idx, want));
+            return;
+        }
+        for (j, c) in row.iter() {
+            if *c == 0 || cs.get(d, j) != Some(c) {
+                ctx.fail("sparse_structure", class, format!("document {}: stored cell {} holds {} / get() reads {:?}", d, j, c, cs.get(d, j)));
+                return;
             }
         }
     }
@@ -420,15 +751,15 @@ fn canon(vocab: &[String]) -> (Vec<String>, Vec<usize>) {
 fn show_vocab(v: &[String]) -> String {
     if v.is_empty() { "-".to_string() } else { list(v.iter(), |w| xw(w)) }
 }
-fn resp_counts(nentries: usize, vocab: &[String], dense: &Array2<usize>) -> String {
+fn resp_counts(nentries: usize, vocab: &[String], dense: &Array2<usize>, nnz: usize, decided: bool) -> String {
     let (sv, perm) = canon(vocab);
     let rows: Vec<Vec<usize>> = (0..dense.nrows()).map(|d| perm.iter().map(|j| dense[(d, *j)]).collect()).collect();
-    format!("ok n={} vocab={} counts={}", nentries, show_vocab(&sv), list2(rows.iter().map(|r| r.iter()), |c| c.to_string()))
+    format!("ok n={} vocab={} counts={} nnz={} {}", nentries, show_vocab(&sv), list2(rows.iter().map(|r| r.iter()), |c| c.to_string()), nnz, show_margin(decided))
 }
-fn resp_tfidf(nentries: usize, vocab: &[String], dense: &Array2<f64>) -> String {
+fn resp_tfidf(nentries: usize, vocab: &[String], dense: &Array2<f64>, decided: bool) -> String {
     let (sv, perm) = canon(vocab);
     let rows: Vec<Vec<f64>> = (0..dense.nrows()).map(|d| perm.iter().map(|j| dense[(d, *j)]).collect()).collect();
-    format!("ok n={} vocab={} tfidf={}", nentries, show_vocab(&sv), list2(rows.iter().map(|r| r.iter()), |c| format!("~{}", hex64c(*c))))
+    format!("ok n={} vocab={} tfidf={} {}", nentries, show_vocab(&sv), list2(rows.iter().map(|r| r.iter()), |c| format!("~{}", hex64c(*c))), show_margin(decided))
 }
 
 fn err_kind(e: &linfa_preprocessing::PreprocessingError) -> String {
@@ -461,6 +792,29 @@ fn gen_corpus(rng: &mut Rng, max_docs: usize, maxw: usize) -> Corpus {
     Corpus { fit, tr }
 }
 
+/// many documents over a synthetic alphabet with a skewed word distribution: document frequencies
+/// spread over the whole range, many entries share a frequency (ties at any cap)
+fn gen_large(rng: &mut Rng, n: usize) -> Corpus {
+    let w = 4 + rng.below(40);
+    let mut words: Vec<String> = (0..w).map(|i| format!("w{:02}", i)).collect();
+    words.push("Two".into());
+    words.push("caf\u{e9}".into());
+    let pick = |rng: &mut Rng| -> String {
+        let u = rng.unit();
+        words[((u * u) * words.len() as f64) as usize % words.len()].clone()
+    };
+    let mut doc = |rng: &mut Rng| -> String {
+        let k = rng.below(6);
+        (0..k).map(|_| pick(rng)).collect::<Vec<_>>().join(" ")
+    };
+    let fit: Vec<String> = (0..n).map(|_| doc(rng)).collect();
+    let mut tr: Vec<String> = (0..rng.below(4)).map(|_| rng.pick(&fit).clone()).collect();
+    for _ in 0..rng.below(4) {
+        tr.push(format!("{} zebra {}", doc(rng), doc(rng)));
+    }
+    Corpus { fit, tr }
+}
+
 /// stop words / cap chosen with knowledge of the corpus, so that they bite
 fn add_stop_cap(rng: &mut Rng, cfg: &mut Cfg, fit_toks: &[Vec<String>]) {
     let mut grams: BTreeSet<String> = BTreeSet::new();
@@ -484,36 +838,53 @@ fn add_stop_cap(rng: &mut Rng, cfg: &mut Cfg, fit_toks: &[Vec<String>]) {
         cfg.stop = Some(s);
     }
     if rng.chance(2, 5) {
-        cfg.cap = Some(rng.below(grams.len() + 2));
+        cfg.cap = Some(if grams.len() > 12 && rng.coin() { rng.below(12) } else { rng.below(grams.len() + 2) });
     }
 }
 
-fn op_count(em: &mut Em, cfg: &Cfg, corpus: &Corpus) {
-    let tp = cfg.tokenizer_params();
-    let fit_toks: Vec<Vec<String>> = corpus.fit.iter().map(|d| tokens(&tp, d)).collect();
-    let tr_toks: Vec<Vec<String>> = corpus.tr.iter().map(|d| tokens(&tp, d)).collect();
-    let op = format!("count fit={} tr={} {}", show_docs(&fit_toks), show_docs(&tr_toks), cfg.settings());
+fn has_big_gram(vocab: &[String]) -> bool {
+    vocab.iter().any(|w| w.matches(' ').count() >= 3)
+}
+
+fn op_count(em: &mut Em, cfg: &Cfg, corpus: &Corpus, ffit: &str, ftr: &str) {
+    let fit_toks: Vec<Vec<String>> = corpus.fit.iter().map(|d| ref_tokens(cfg, d)).collect();
+    let tr_toks: Vec<Vec<String>> = corpus.tr.iter().map(|d| ref_tokens(cfg, d)).collect();
+    let op = format!("count fit={} tr={} {} ffit={} ftr={}", show_docs(&fit_toks), show_docs(&tr_toks), cfg.settings(), ffit, ftr);
     let mut extra: Vec<String> = vec![];
     let covered = cfg.covered();
     let class = format!("count:{}", cfg.class());
     let body = |ctx: &mut Ctx| {
-        let fit = Array1::from(corpus.fit.clone());
-        let tr = Array1::from(corpus.tr.clone());
-        match cfg.count_params().fit(&fit) {
+        oracle_settings(ctx, cfg, &corpus.fit, &fit_toks);
+        oracle_settings(ctx, cfg, &corpus.tr, &tr_toks);
+        match fit_count(cfg, ffit, &corpus.fit) {
             Err(e) => {
                 if covered {
-                    ctx.fail("fit_succeeds", &class, format!("fit returned {:?} on valid settings", e));
+                    ctx.fail("fit_succeeds", &class, format!("fit ({}) returned {:?} on valid settings", ffit, e));
                 }
-                format!("err {}", err_kind(&e))
+                extra.push(format!("errkind:{}", err_kind(&e)));
+                "err".to_string()
             }
             Ok(cv) => {
                 let vocab = cv.vocabulary().clone();
-                let dense: Array2<usize> = cv.transform(&tr).expect("transform").to_dense();
+                let cs = transform_count(cfg, &cv, ftr, &corpus.tr).expect("transform");
+                let dense: Array2<usize> = cs.to_dense();
                 if covered {
                     oracle_vocab(ctx, &mut extra, cfg, &fit_toks, &vocab);
-                    oracle_counts(ctx, cfg, "count", &tr_toks, &vocab, cv.nentries(), &dense);
+                    let naive = oracle_counts(ctx, cfg, "count", &tr_toks, &vocab, cv.nentries(), &dense);
+                    oracle_sparse(ctx, &format!("count:ftr={}", ftr), &cs, &naive);
+                    extra.push(format!("fitted:count:ffit={}", ffit));
+                    extra.push(format!("transformed:count:ftr={}", ftr));
+                    if !vocab.is_empty() {
+                        extra.push("fitted:count:nonempty_vocab".into());
+                    }
+                    if has_big_gram(&vocab) {
+                        extra.push("fitted:ngram_of_4_or_more".into());
+                    }
+                    if corpus.fit.len() >= 30 {
+                        extra.push("fitted:large_corpus".into());
+                    }
                 }
-                resp_counts(cv.nentries(), &vocab, &dense)
+                resp_counts(cv.nentries(), &vocab, &dense, cs.nnz(), decided(cfg, &fit_toks, &vocab))
             }
         }
     };
@@ -527,26 +898,25 @@ fn op_count(em: &mut Em, cfg: &Cfg, corpus: &Corpus) {
     }
 }
 
-fn op_tfidf(em: &mut Em, cfg: &Cfg, method: &str, corpus: &Corpus) {
-    let tp = cfg.tokenizer_params();
-    let fit_toks: Vec<Vec<String>> = corpus.fit.iter().map(|d| tokens(&tp, d)).collect();
-    let tr_toks: Vec<Vec<String>> = corpus.tr.iter().map(|d| tokens(&tp, d)).collect();
-    let op = format!("tfidf fit={} tr={} {} method={}", show_docs(&fit_toks), show_docs(&tr_toks), cfg.settings(), method);
+fn op_tfidf(em: &mut Em, cfg: &Cfg, method: &str, corpus: &Corpus, ffit: &str, ftr: &str) {
+    let fit_toks: Vec<Vec<String>> = corpus.fit.iter().map(|d| ref_tokens(cfg, d)).collect();
+    let tr_toks: Vec<Vec<String>> = corpus.tr.iter().map(|d| ref_tokens(cfg, d)).collect();
+    let op = format!("tfidf fit={} tr={} {} method={} ffit={} ftr={}", show_docs(&fit_toks), show_docs(&tr_toks), cfg.settings(), method, ffit, ftr);
     let mut extra: Vec<String> = vec![];
     let covered = cfg.covered();
     let class = format!("tfidf:method={}:{}", method, cfg.class());
     let body = |ctx: &mut Ctx| {
-        let fit = Array1::from(corpus.fit.clone());
-        let tr = Array1::from(corpus.tr.clone());
-        match cfg.tfidf_params(method).fit(&fit) {
+        oracle_settings(ctx, cfg, &corpus.fit, &fit_toks);
+        oracle_settings(ctx, cfg, &corpus.tr, &tr_toks);
+        match fit_tfidf(cfg, method, ffit, &corpus.fit) {
             Err(e) => {
                 if covered {
-                    ctx.fail("fit_succeeds", &class, format!("fit returned {:?} on valid settings", e));
+                    ctx.fail("fit_succeeds", &class, format!("fit ({}) returned {:?} on valid settings", ffit, e));
                 }
-                format!("err {}", err_kind(&e))
+                extra.push(format!("errkind:{}", err_kind(&e)));
+                "err".to_string()
             }
             Ok(tv) => {
-                let tv: FittedTfIdfVectorizer = tv;
                 let want_m = match method {
                     "smooth" => TfIdfMethod::Smooth,
                     "nonsmooth" => TfIdfMethod::NonSmooth,
@@ -554,12 +924,18 @@ fn op_tfidf(em: &mut Em, cfg: &Cfg, method: &str, corpus: &Corpus) {
                 };
                 ctx.require(*tv.method() == want_m, "method_kept", &class, || format!("fitted method {:?}", tv.method()));
                 let vocab = tv.vocabulary().clone();
-                let dense: Array2<f64> = tv.transform(&tr).expect("transform").to_dense();
+                let dense: Array2<f64> = transform_tfidf(cfg, &tv, ftr, &corpus.tr).expect("transform").to_dense();
                 if covered {
                     oracle_vocab(ctx, &mut extra, cfg, &fit_toks, &vocab);
                     oracle_tfidf(ctx, cfg, method, "tfidf", &tr_toks, &vocab, tv.nentries(), &dense);
+                    extra.push(format!("fitted:tfidf:ffit={}", ffit));
+                    extra.push(format!("transformed:tfidf:ftr={}", ftr));
+                    extra.push(format!("transformed:tfidf:method={}", method));
+                    if dense.iter().any(|x| *x != 0.0) {
+                        extra.push("transformed:tfidf:nonzero_cell".into());
+                    }
                 }
-                resp_tfidf(tv.nentries(), &vocab, &dense)
+                resp_tfidf(tv.nentries(), &vocab, &dense, decided(cfg, &fit_toks, &vocab))
             }
         }
     };
@@ -573,18 +949,18 @@ fn op_tfidf(em: &mut Em, cfg: &Cfg, method: &str, corpus: &Corpus) {
     }
 }
 
-fn op_fixed(em: &mut Em, cfg: &Cfg, method: Option<&str>, words: &[String], tr_docs: &[String]) {
-    let tp = cfg.tokenizer_params();
-    let tr_toks: Vec<Vec<String>> = tr_docs.iter().map(|d| tokens(&tp, d)).collect();
+fn op_fixed(em: &mut Em, cfg: &Cfg, method: Option<&str>, words: &[String], tr_docs: &[String], ftr: &str) {
+    let tr_toks: Vec<Vec<String>> = tr_docs.iter().map(|d| ref_tokens(cfg, d)).collect();
     let name = if method.is_some() { "fixed_tfidf" } else { "fixed" };
-    let mut op = format!("{} vocab={} tr={} nmin={} nmax={} lo={} hi={}", name, list(words.iter(), |w| xw(w)), show_docs(&tr_toks), cfg.nmin, cfg.nmax, hex32(cfg.lo), hex32(cfg.hi));
+    let mut op = format!("{} vocab={} tr={} nmin={} nmax={} lo={} hi={} ftr={}", name, list(words.iter(), |w| xw(w)), show_docs(&tr_toks), cfg.nmin, cfg.nmax, hex32(cfg.lo), hex32(cfg.hi), ftr);
     if let Some(m) = method {
         op.push_str(&format!(" method={}", m));
     }
     let covered = cfg.covered();
     let class = format!("{}:{}", name, cfg.class());
+    let mut extra: Vec<String> = vec![];
     let body = |ctx: &mut Ctx| {
-        let tr = Array1::from(tr_docs.to_vec());
+        oracle_settings(ctx, cfg, tr_docs, &tr_toks);
         let wset: BTreeSet<&String> = words.iter().collect();
         match method {
             None => match cfg.count_params().fit_vocabulary(words) {
@@ -592,17 +968,20 @@ fn op_fixed(em: &mut Em, cfg: &Cfg, method: Option<&str>, words: &[String], tr_d
                     if covered {
                         ctx.fail("fit_succeeds", &class, format!("fit_vocabulary returned {:?} on valid settings", e));
                     }
-                    format!("err {}", err_kind(&e))
+                    "err".to_string()
                 }
                 Ok(cv) => {
                     let vocab = cv.vocabulary().clone();
-                    let dense: Array2<usize> = cv.transform(&tr).expect("transform").to_dense();
+                    let cs = transform_count(cfg, &cv, ftr, tr_docs).expect("transform");
+                    let dense: Array2<usize> = cs.to_dense();
                     if covered {
                         let vset: BTreeSet<&String> = vocab.iter().collect();
                         ctx.require(vset == wset && vocab.len() == wset.len(), "fixed_vocab_is_given_set", &class, || format!("given {:?}, vocabulary() {:?}", words, vocab));
-                        oracle_counts(ctx, cfg, "fixed", &tr_toks, &vocab, cv.nentries(), &dense);
+                        let naive = oracle_counts(ctx, cfg, "fixed", &tr_toks, &vocab, cv.nentries(), &dense);
+                        oracle_sparse(ctx, &format!("fixed:ftr={}", ftr), &cs, &naive);
+                        extra.push(format!("transformed:fixed:ftr={}", ftr));
                     }
-                    resp_counts(cv.nentries(), &vocab, &dense)
+                    resp_counts(cv.nentries(), &vocab, &dense, cs.nnz(), true)
                 }
             },
             Some(m) => match cfg.tfidf_params(m).fit_vocabulary(words) {
@@ -610,17 +989,18 @@ fn op_fixed(em: &mut Em, cfg: &Cfg, method: Option<&str>, words: &[String], tr_d
                     if covered {
                         ctx.fail("fit_succeeds", &class, format!("fit_vocabulary returned {:?} on valid settings", e));
                     }
-                    format!("err {}", err_kind(&e))
+                    "err".to_string()
                 }
                 Ok(tv) => {
                     let vocab = tv.vocabulary().clone();
-                    let dense: Array2<f64> = tv.transform(&tr).expect("transform").to_dense();
+                    let dense: Array2<f64> = transform_tfidf(cfg, &tv, ftr, tr_docs).expect("transform").to_dense();
                     if covered {
                         let vset: BTreeSet<&String> = vocab.iter().collect();
                         ctx.require(vset == wset && vocab.len() == wset.len(), "fixed_vocab_is_given_set", &class, || format!("given {:?}, vocabulary() {:?}", words, vocab));
                         oracle_tfidf(ctx, cfg, m, "fixed", &tr_toks, &vocab, tv.nentries(), &dense);
+                        extra.push(format!("transformed:fixed_tfidf:ftr={}", ftr));
                     }
-                    resp_tfidf(tv.nentries(), &vocab, &dense)
+                    resp_tfidf(tv.nentries(), &vocab, &dense, true)
                 }
             },
         }
@@ -629,6 +1009,9 @@ fn op_fixed(em: &mut Em, cfg: &Cfg, method: Option<&str>, words: &[String], tr_d
         em.case_valid(op, &class, body)
     } else {
         em.case(op, body)
+    }
+    for k in extra {
+        em.count(&k);
     }
 }
 
@@ -646,8 +1029,31 @@ fn op_ngrams(em: &mut Em, words: &[String], nmin: usize, nmax: usize) {
     });
 }
 
+/// `transform_string` on one document against the reference tables (and the model's `transformString`)
+fn op_tstring(em: &mut Em, lower: bool, norm: bool, raw: &str) {
+    let nf = ref_nfkd(raw);
+    let op = format!("tstring lower={} norm={} raw={} nfkd={} low={} lownfkd={}", lower as u8, norm as u8, xw(raw), xw(&nf), xw(&ref_lower(raw)), xw(&ref_lower(&nf)));
+    let class = format!("tstring:lower={}:norm={}", lower, norm);
+    let cfg = Cfg { lower, norm, tok: 0, nmin: 1, nmax: 1, lo: 0.0, hi: 1.0, stop: None, cap: None };
+    em.case_valid(op, &class, |ctx| {
+        let got = hk::transformed(&cfg.tokenizer_params(), raw);
+        let want = ref_transform(lower, norm, raw);
+        ctx.require(got == want, "settings_honoured", &class, || format!("transform_string({:?}) = {:?}, lowercase={} normalize={} mean {:?}", raw, got, lower, norm, want));
+        format!("ok {}", xw(&got))
+    });
+    em.count("tstring");
+}
+
 fn idf_method_name(i: usize) -> &'static str {
     ["smooth", "nonsmooth", "textbook"][i % 3]
+}
+
+fn pick_forms(rng: &mut Rng, fit_forms: &[&'static str]) -> (&'static str, &'static str) {
+    if rng.coin() {
+        ("owned", "owned")
+    } else {
+        (*rng.pick(fit_forms), *rng.pick(TR_FORMS))
+    }
 }
 
 pub fn run(em: &mut Em, rng: &mut Rng) {
@@ -657,30 +1063,58 @@ pub fn run(em: &mut Em, rng: &mut Rng) {
         // truncation of the minimum document frequency: 3 documents, min_df = 0.5
         let corpus = Corpus { fit: vec!["one two".into(), "two three".into(), "two four".into()], tr: vec!["one two two".into()] };
         let cfg = Cfg { lower: true, norm: true, tok: 0, nmin: 1, nmax: 1, lo: 0.5, hi: 1.0, stop: None, cap: None };
-        op_count(em, &cfg, &corpus);
+        op_count(em, &cfg, &corpus, "owned", "owned");
         // stop words are whole entries: the bigram survives its parts
         let cfg = Cfg { lower: true, norm: true, tok: 0, nmin: 1, nmax: 2, lo: 0.0, hi: 1.0, stop: Some(vec!["two".into(), "two three".into()]), cap: None };
-        op_count(em, &cfg, &corpus);
+        op_count(em, &cfg, &corpus, "owned", "owned");
         // cap with a frequency tie at the cut
         let cfg = Cfg { lower: true, norm: true, tok: 0, nmin: 1, nmax: 1, lo: 0.0, hi: 1.0, stop: None, cap: Some(2) };
-        op_count(em, &cfg, &corpus);
+        op_count(em, &cfg, &corpus, "owned", "owned");
+        // a proper document-frequency window through every calling form (files included: the
+        // window is computed from the number of files)
+        let cfg = Cfg { lower: true, norm: true, tok: 0, nmin: 1, nmax: 2, lo: 0.5, hi: 0.75, stop: None, cap: None };
+        let corpus4 = Corpus { fit: vec!["one two".into(), "two three".into(), "two four one".into(), "four".into()], tr: vec!["one two two".into(), "".into(), "four one".into()] };
+        for f in FIT_FORMS {
+            for t in TR_FORMS {
+                op_count(em, &cfg, &corpus4, f, t);
+            }
+        }
+        for f in TFIDF_FIT_FORMS {
+            for t in TR_FORMS {
+                op_tfidf(em, &cfg, "smooth", &corpus4, f, t);
+            }
+        }
         // ligature, combining accent, case
         let corpus = Corpus { fit: vec!["\u{fb01}sh FISH caf\u{e9} cafe\u{301}".into(), "CAF\u{c9} \u{130}st".into(), "".into()], tr: vec!["fish cafe\u{301} x".into(), "".into()] };
         for (l, nm) in [(true, true), (true, false), (false, true), (false, false)] {
             for tok in 0..3u8 {
                 let cfg = Cfg { lower: l, norm: nm, tok, nmin: 1, nmax: 2, lo: 0.0, hi: 1.0, stop: None, cap: None };
-                op_count(em, &cfg, &corpus);
+                op_count(em, &cfg, &corpus, "owned", "owned");
                 for m in 0..3 {
-                    op_tfidf(em, &cfg, idf_method_name(m), &corpus);
+                    op_tfidf(em, &cfg, idf_method_name(m), &corpus, "owned", "owned");
                 }
             }
         }
     }
-    // ---- NGramList directly: all ranges 1<=min<=max<=4 on short word lists
+    // ---- transform_string on every word of the alphabet and on whole documents, the four settings
+    {
+        let mut raws: Vec<String> = POOL.iter().chain(OOV.iter()).map(|s| s.to_string()).collect();
+        raws.push("".into());
+        raws.push("CAF\u{c9}; \u{fb01}sh \u{212b}ng, \u{130}st - na\u{ef}ve!Two".into());
+        for _ in 0..(if deep { 60 } else { 12 }) {
+            raws.push(gen_doc(rng, POOL, 6, true));
+        }
+        for raw in &raws {
+            for (l, nm) in [(true, true), (true, false), (false, true), (false, false)] {
+                op_tstring(em, l, nm, raw);
+            }
+        }
+    }
+    // ---- NGramList directly: all ranges 1<=min<=max<=6 on short word lists
     let pool: Vec<String> = ["a", "b", "c", "a b", ""].iter().map(|s| s.to_string()).collect();
-    for len in 0..=(if deep { 7 } else { 5 }) {
-        for nmin in 1..=4 {
-            for nmax in nmin..=4 {
+    for len in 0..=(if deep { 10 } else { 8 }) {
+        for nmin in 1..=6 {
+            for nmax in nmin..=6 {
                 for _ in 0..(if deep { 6 } else { 2 }) {
                     let words: Vec<String> = (0..len).map(|_| rng.pick(&pool).clone()).collect();
                     op_ngrams(em, &words, nmin, nmax);
@@ -688,14 +1122,20 @@ pub fn run(em: &mut Em, rng: &mut Rng) {
             }
         }
     }
-    // ---- generated corpora × settings
+    // ---- generated corpora × settings × calling forms
     let rounds = if deep { 60000 } else { 4500 };
     for r in 0..rounds {
-        let (max_docs, maxw) = if deep && r % 4 == 0 { (12, 10) } else { (7, 7) };
+        let long_docs = r % 8 == 0;
+        let (max_docs, maxw) = if deep && r % 4 == 0 { (12, if long_docs { 14 } else { 10 }) } else { (7, if long_docs { 12 } else { 7 }) };
         let corpus = gen_corpus(rng, max_docs, maxw);
         let mut cfg = gen_cfg(rng, corpus.fit.len());
-        let tp = cfg.tokenizer_params();
-        let fit_toks: Vec<Vec<String>> = corpus.fit.iter().map(|d| tokens(&tp, d)).collect();
+        if long_docs || rng.chance(1, 10) {
+            let big = [(1, 4), (2, 4), (3, 4), (4, 4), (1, 5), (2, 5), (3, 5), (5, 5), (4, 5), (1, 6), (2, 6), (6, 6)];
+            let (a, b) = *rng.pick(&big);
+            cfg.nmin = a;
+            cfg.nmax = b;
+        }
+        let fit_toks: Vec<Vec<String>> = corpus.fit.iter().map(|d| ref_tokens(&cfg, d)).collect();
         add_stop_cap(rng, &mut cfg, &fit_toks);
         em.count(&format!("ngram:{},{}", cfg.nmin, cfg.nmax));
         em.count(&format!("docs:{}", corpus.fit.len().min(8)));
@@ -709,11 +1149,15 @@ pub fn run(em: &mut Em, rng: &mut Rng) {
             em.count("df_window:proper");
         }
         match r % 3 {
-            0 | 1 => op_count(em, &cfg, &corpus),
+            0 | 1 => {
+                let (f, t) = pick_forms(rng, FIT_FORMS);
+                op_count(em, &cfg, &corpus, f, t)
+            }
             _ => {
                 let m = idf_method_name(rng.below(3));
                 em.count(&format!("method:{}", m));
-                op_tfidf(em, &cfg, m, &corpus)
+                let (f, t) = pick_forms(rng, TFIDF_FIT_FORMS);
+                op_tfidf(em, &cfg, m, &corpus, f, t)
             }
         }
         // fixed vocabulary on the same documents
@@ -728,10 +1172,42 @@ pub fn run(em: &mut Em, rng: &mut Rng) {
                 }
             }
             let m = if r % 10 == 0 { Some(idf_method_name(rng.below(3))) } else { None };
-            op_fixed(em, &cfg, m, &words, &corpus.tr);
+            let t = if rng.coin() { "owned" } else { *rng.pick(TR_FORMS) };
+            op_fixed(em, &cfg, m, &words, &corpus.tr, t);
         }
     }
-    // ---- malformed settings (error branches of the parameter check; outside the property)
+    // ---- many documents: the f32 product `bound * n` for n in the tens and hundreds, large
+    //      vocabularies, caps through large groups of equal document frequency
+    for r in 0..(if deep { 400 } else { 60 }) {
+        let n = match r % 6 {
+            0 => 30 + rng.below(40),
+            1 | 2 => 70 + rng.below(130),
+            3 => *rng.pick(&[100usize, 128, 200, 250, 256, 300]),
+            4 => 200 + rng.below(if deep { 800 } else { 200 }),
+            _ => 255 + rng.below(4),
+        };
+        let corpus = gen_large(rng, n);
+        let mut cfg = gen_cfg(rng, n);
+        let (a, b) = *rng.pick(&[(1, 1), (1, 1), (1, 2), (2, 2), (1, 3)]);
+        cfg.nmin = a;
+        cfg.nmax = b;
+        let fit_toks: Vec<Vec<String>> = corpus.fit.iter().map(|d| ref_tokens(&cfg, d)).collect();
+        add_stop_cap(rng, &mut cfg, &fit_toks);
+        em.count("large");
+        if cfg.lo > 0.0 || cfg.hi < 1.0 {
+            em.count("large:df_window:proper");
+        }
+        if r % 4 == 3 {
+            let m = idf_method_name(rng.below(3));
+            let (f, t) = pick_forms(rng, TFIDF_FIT_FORMS);
+            op_tfidf(em, &cfg, m, &corpus, f, t);
+        } else {
+            let (f, t) = pick_forms(rng, FIT_FORMS);
+            op_count(em, &cfg, &corpus, f, t);
+        }
+    }
+    // ---- malformed settings (error branches of the parameter check; outside the property: only
+    //      "the fit is refused" is compared, the kinds are counted)
     for _ in 0..(if deep { 400 } else { 60 }) {
         let corpus = gen_corpus(rng, 4, 4);
         let mut cfg = gen_cfg(rng, corpus.fit.len());
@@ -757,6 +1233,12 @@ pub fn run(em: &mut Em, rng: &mut Rng) {
             }
         }
         em.count("malformed");
-        op_count(em, &cfg, &corpus);
+        let (f, t) = pick_forms(rng, FIT_FORMS);
+        // a NaN bound cannot travel through JSON: no serde round trip outside the guard
+        let t = if t == "serde" { "view" } else { t };
+        op_count(em, &cfg, &corpus, f, t);
+    }
+    if let Some(d) = FILE_DIR.get() {
+        let _ = std::fs::remove_dir_all(d);
     }
 }
